@@ -1019,7 +1019,8 @@ class HistogramBase(abc.ABC):
             if other < 0 and not config.free_arithmetics:
                 # Also for empty bins (whose contents stay zero) and for the missed counts
                 raise ValueError("Cannot have negative frequencies.")
-            self._coerce_dtype(np.float64)
+            # At least double precision (more if the divisor itself is e.g. a long double)
+            self._coerce_dtype(np.result_type(np.float64, np.asarray(other).dtype))
             self.frequencies = self.frequencies / other
             # Not `other**2`: the square of a numpy integer scalar wraps around in its own type
             self.errors2 = self.errors2 / other / other
